@@ -28,17 +28,22 @@ def envelope_streams(rng, tier):
             msgs = ";".join(shapes)
             cases.append(["stream tr=%s,rt=ct,when=after,style=%s type=ROUTER,mandatory=1 type=DEALER,id=h6431 %s" % (tr, style, msgs)])
             cases.append(["stream tr=%s,rt=ct,when=after,style=%s type=DEALER type=ROUTER %s" % (tr, style, msgs)])
+    # a peer with an announced identity sends, disconnects, and only then the ROUTER reads: never under another identity
+    for tr in ("tcp", "inproc") if tier == "quick" else ("tcp", "ipc", "inproc"):
+        cases.append(["routerlate %s DEALER %d %d" % (tr, rng.choice([4, 8, 20]), 3)])
+    cases.append(["routerlate tcp REQ 1 3"])
     return cases
 
 
 SPEC = {
     "components": [{"comp": "stack", "gen": envelope_streams, "label": "envelopes-stack", "shrink": False,
-                    "nontrivial": lambda c, i: any(l.startswith("delivered=") for l in i), "dist": lambda cs: {"cases": len(cs)}},
+                    "nontrivial": lambda c, i: any(l.startswith("delivered=") or l == "routerlate=ok" for l in i), "dist": lambda cs: {"cases": len(cs)}},
                    {"comp": "routing", "gen": gen, "oracle": R.map_oracle, "label": "routermap",
                     "nontrivial": lambda c, i: any(" " in l and l != "none" for l in i), "dist": lambda cs: {"cases": len(cs)}}],
     "search": lambda rng, tier: [("stack", envelope_streams(rng, "thorough"), None, False), ("routing", gen(rng, tier), R.map_oracle)],
     "rule": "stack level: every empty/non-empty shape of 1..3 payload frames sent ROUTER>DEALER (addressed by the DEALER's ROUTING_ID) and "
-            "DEALER>ROUTER over tcp/ipc/inproc, read whole and frame by frame: the payload must arrive unchanged (digest predicted by the model); "
+            "DEALER>ROUTER over tcp/ipc/inproc, read whole and frame by frame: the payload must arrive unchanged (digest predicted by the model); a DEALER/REQ "
+            "with an announced identity sends a burst, disconnects, and only then the ROUTER reads: what still arrives carries that identity; "
             "component level: random histories of add_peer/update_peer_identity/remove_peer_by_read_pipe/lookups/prepare_wire_frames on the real "
             "RouterMap (identities 1..226 bytes, colliding identities included), plus the four auto-framing functions on payload "
             "shapes with empty frames in every position; oracle = per-pipe current-identity reference (applied while no two live "
